@@ -13,7 +13,7 @@ def run(ctx) -> Report:
     if not ctx.replay:
         G.run_mc(rep, ctx, "C05")
     n = 1 if ctx.quick else 10
-    G.conformance(rep, ctx, "C05", {"basic": 150 * n, "churn": 180 * n, "faults": 100 * n, "subs": 170 * n, "live": 120 * n})
+    G.conformance(rep, ctx, "C05", {"basic": 150 * n, "churn": 180 * n, "faults": 100 * n, "subs": 170 * n, "live": 120 * n, "slowrevoke": 60 * n, "joinauth": 80 * n})
     rep.extra.update(
         bounds="as C04; plus equal or different subscriptions over two topics, subscription changes during a rebalance and inside listener "
                "callbacks, listeners sleeping 0-150 ms so that callbacks of different members overlap, each configured assignor",
